@@ -792,6 +792,18 @@ def verify_retry_dead(E, prop):
     def mk_cands(E_, s, nm):
         return [(ghost.new_pyarr(s, z3.Const(fresh_name("cands"), ghost.PARR), z3.Int(fresh_name("ncands"))), [])]
 
+    # ghost: candidate j was taken from position src[j] of the dead table's enumeration
+    st.ghost["rd_src"] = z3.Const("rd_src0", z3.ArraySort(I, I))
+
+    def on_append(s, arr, pos):
+        if s.ghost.get("loop_index") is not None:
+            s.ghost["rd_src"] = z3.Store(s.ghost["rd_src"], pos, s.ghost["loop_index"])
+    st.ghost["on_py_append"] = on_append
+
+    def havoc0(E_, s):
+        s.ghost["rd_src"] = z3.Const(fresh_name("rd_src"), z3.ArraySort(I, I))
+        return [s]
+
     def expired(t, now):
         return now - z3.Select(D0["dtime"], t) > dt
 
@@ -810,13 +822,18 @@ def verify_retry_dead(E, prop):
         parts = [("count", z3.And(n >= 0, n <= i)), ("state-untouched", z3.And(s.heap[f["_dead_clients"].ref]["mem"] == D0["mem"],
                                                                               s.heap[f["hasher"].ref]["mem"] == s0["R"]["mem"]))]
         if a is not None:
+            src = s.ghost["rd_src"]
+            j2 = z3.Int("j2")
+            parts += [("candidates-come-from-strictly-increasing-positions-of-the-dead-table",
+                       z3.And(z3.ForAll([j], z3.Implies(z3.And(0 <= j, j < n), z3.And(0 <= src[j], src[j] < i, a[j] == D0["keys"][src[j]]))),
+                              z3.ForAll([j, j2], z3.Implies(z3.And(0 <= j, j < j2, j2 < n), src[j] < src[j2]))))]
             parts += [("candidates-are-expired-dead-servers",
                        z3.ForAll([j], z3.Implies(z3.And(0 <= j, j < n), z3.And(z3.Select(D0["mem"], a[j]), expired(a[j], now.t))))),
                       ("every-expired-dead-server-seen-so-far-is-a-candidate",
                        z3.ForAll([k2], z3.Implies(z3.And(0 <= k2, k2 < i, expired(D0["keys"][k2], now.t)),
                                                   z3.Exists([j], z3.And(0 <= j, j < n, a[j] == D0["keys"][k2])))))]
         return parts
-    E.loop_specs[(q, 0)] = LoopSpec(inv0, vars={"candidates": mk_cands}, shape="for ($0, $1) in self._dead_clients.items()")
+    E.loop_specs[(q, 0)] = LoopSpec(inv0, vars={"candidates": mk_cands}, shape="for ($0, $1) in self._dead_clients.items()", havoc=havoc0)
 
     def havoc1(E_, s):
         R, C, D = s.heap[f["hasher"].ref], s.heap[f["clients"].ref], s.heap[f["_dead_clients"].ref]
@@ -837,9 +854,12 @@ def verify_retry_dead(E, prop):
             return [("kinds", z3.BoolVal(False))]
         a, n = c.get(s)
         R = s.heap[f["hasher"].ref]
-        j = z3.Int("j")
+        j, j2 = z3.Int("j"), z3.Int("j2")
         nmv = z3.String("n1")
-        return [("candidates-are-expired-dead-servers",
+        D = s.heap[f["_dead_clients"].ref]
+        return [("candidates-are-pairwise-distinct", z3.ForAll([j, j2], z3.Implies(z3.And(0 <= j, j < j2, j2 < n), a[j] != a[j2]))),
+                ("candidates-not-yet-re-added-are-still-recorded-dead", z3.ForAll([j], z3.Implies(z3.And(i <= j, j < n), z3.Select(D["mem"], a[j])))),
+                ("candidates-are-expired-dead-servers",
                  z3.ForAll([j], z3.Implies(z3.And(0 <= j, j < n), z3.And(z3.Select(D0["mem"], a[j]), expired(a[j], now.t))))),
                 ("re-added-servers-are-in-rotation", z3.ForAll([j], z3.Implies(z3.And(0 <= j, j < i), z3.Select(R["mem"], node_name(a[j]))))),
                 ("rotation-only-grows", z3.ForAll([nmv], z3.Implies(z3.Select(s0["R"]["mem"], nmv), z3.Select(R["mem"], nmv)))),
@@ -849,8 +869,10 @@ def verify_retry_dead(E, prop):
     for o in E.run_function(q, st, [], {}, selfv=me):
         s = o.st
         if o.kind != "return":
-            # KeyError from `del self._dead_clients[server]` needs the candidates to be pairwise distinct members: the
-            # A-dict enumeration argument is undecided by the solvers; listed under NOT_COVERED, not claimed
+            # KeyError from `del self._dead_clients[server]`: excluded by the loop-1 invariant (the candidates are pairwise
+            # distinct members of the dead table, and the ones not yet re-added are still in it)
+            E.oblige("%s/%s/never-raises(no-internal-bookkeeping-error)" % (prop, short(q)), s, z3.BoolVal(False), func=q,
+                     meta={"raised": o.val.cls, "site": str(o.site)})
             continue
         R, D = s.heap[f["hasher"].ref], s.heap[f["_dead_clients"].ref]
         now = s.ghost["now"]
@@ -884,8 +906,7 @@ HROUTE = {"route": "C12", "forward": "C16", "miss": "C07", "failover": "C13"}
 
 
 def retry_dead_contract(E, st, args, kwargs, selfv, site):
-    """_retry_dead by contract (verify_retry_dead): rotation only grows, tables stay well-formed, never raises on
-    key-addressed paths (the last clause is not mechanised, see NOT_COVERED of C13)."""
+    """_retry_dead by contract (verify_retry_dead): rotation and client table only grow, tables stay well-formed, never raises."""
     f = st.heap[selfv.ref]
     R, C, D = st.heap[f["hasher"].ref], st.heap[f["clients"].ref], st.heap[f["_dead_clients"].ref]
     oldR, oldC = R["mem"], C["mem"]
